@@ -9,6 +9,7 @@ use crate::Args;
 
 pub mod c06;
 pub mod c07;
+pub mod c08;
 pub mod c09;
 pub mod c14;
 pub mod c15;
@@ -110,6 +111,7 @@ pub fn run(args: &Args) -> J {
         "c17" => c17::run(args, &mut rep),
         "c16" => c16::run(args, &mut rep),
         "c09" => c09::run(args, &mut rep),
+        "c08" => c08::run(args, &mut rep),
         "c14" => c14::run(args, &mut rep),
         "c18" => c18::run(args, &mut rep),
         m => {
